@@ -109,5 +109,56 @@ def mulConstSide : AExpr → Bool
   | .const _ => true
   | .bin k a b => (k != .mul || dimFree a || dimFree b) && mulConstSide a && mulConstSide b
 
+/-! ### further entry points of the class (added in the deepening round; nothing above is changed) -/
+
+/-- `__post_init__` on the shapes of the two numpy arrays -/
+def postInit (aShape bShape : List Nat) : Except Err Unit :=
+  if aShape.length ≠ 2 then .error .valueError          -- "Matrix A must be 2-dimensional."
+  else if bShape.length ≠ 1 then .error .valueError     -- "Vector b must be 1-dimensional."
+  else if aShape.head? ≠ bShape.head? then .error .valueError
+  else .ok ()
+
+/-- `eval(x)` for a 2-D `x` of shape `(xs.length, k)` (batch of vectors): `(A @ x.T).T + b`. -/
+def Transform.evalBatch (t : Transform) (xs : List (List Int)) (k : Nat) : Except Err (List (List Int)) :=
+  if k ≠ t.nd then .error .valueError else .ok (xs.map fun x => vecAdd (matVec t.A x) t.b)
+
+/-- `eval(x)` dispatching on `x.ndim` (1: `xs = [x]`; 2: batch; anything else raises). -/
+def Transform.evalNd (t : Transform) (ndim : Nat) (xs : List (List Int)) (k : Nat) : Except Err (List (List Int)) :=
+  if ndim = 1 then
+    match xs with
+    | [x] => (t.eval x).map fun y => [y]
+    | _ => .error .valueError
+  else if ndim = 2 then t.evalBatch xs k
+  else .error .valueError
+
+/-- numpy broadcasting: two extents are compatible when equal or one of them is 1 -/
+def compat (m n : Nat) : Bool := m == n || m == 1 || n == 1
+
+def stretch {α} (n : Nat) (l : List α) : List α :=
+  match l with
+  | [a] => List.replicate n a
+  | _ => l
+
+/-- `(a == b).all()` for two broadcast-compatible vectors -/
+def allEq1 (a b : List Int) : Bool :=
+  let n := if a.length = 1 then b.length else a.length
+  (List.zipWith (· == ·) (stretch n a) (stretch n b)).all id
+
+/-- `(A == B).all()` for two broadcast-compatible matrices (lists of rows) -/
+def allEq2 (A B : List (List Int)) : Bool :=
+  let n := if A.length = 1 then B.length else A.length
+  (List.zipWith allEq1 (stretch n A) (stretch n B)).all id
+
+/-- `AffineTransform.__eq__` AS IT IS: `(self.A == other.A).all() and (self.b == other.b).all()` with
+numpy broadcasting (incompatible shapes raise ValueError; `and` short-circuits). -/
+def Transform.eqNp (s o : Transform) : Except Err Bool :=
+  if !(compat s.A.length o.A.length && compat s.nd o.nd) then .error .valueError
+  else if !(allEq2 s.A o.A) then .ok false
+  else if !(compat s.b.length o.b.length) then .error .valueError
+  else .ok (allEq1 s.b o.b)
+
+/-- `__eq__` with fix FC19b (`np.array_equal` on both arrays: shapes and entries). -/
+def Transform.eqFixed (s o : Transform) : Bool := s.nd == o.nd && s.A == o.A && s.b == o.b
+
 end AT
 end SnaxVerif
